@@ -594,6 +594,10 @@ class ExprMixin(object):
     if isinstance(a, (VClass, VFunc, VBound, VModule)) or isinstance(b, (VClass, VFunc, VBound, VModule)):
       if isinstance(a, VClass) and isinstance(b, VClass):
         return z3.BoolVal(a.name == b.name)
+      fa = z3.IntVal(a.fn_id) if isinstance(a, VFunc) else (a.t if isinstance(a, V) and a.ty.k in ('fn', 'any') else None)
+      fb = z3.IntVal(b.fn_id) if isinstance(b, VFunc) else (b.t if isinstance(b, V) and b.ty.k in ('fn', 'any') else None)
+      if fa is not None and fb is not None:
+        return fa == fb
       raise Unsupported('== on callables')
     if a.ty.k == 'none' or b.ty.k == 'none':
       o = b if a.ty.k == 'none' else a
